@@ -43,6 +43,10 @@ CHECKS.update({
             "Bounded symbolic model checking: streams of 1-2 (3) updates over symbolic tracked / update keys keep value, branch and root equal to the tree; every truncation length of the hash list is accepted iff it reaches the first differing bit, else ValidationError with the proof unchanged.", L_NOTE, "4/C15"),
     "C16": ("L", "AST-to-SMT symbolic interpretation of trie/utils/nibbles.py, binaries.py, nodes.py (pylift): every nibble/bit/byte a bit-vector, one z3 query per length; native replay",
             "Bounded symbolic model checking, exhaustive in the contents for every length up to the bound: HP == Yellow Paper formula and round trip, bytes<->nibbles, bit strings, key-path packing, binary node encode/parse and rejection, hexary node classification, prefix kernels, nibble tables == closed forms.", L_NOTE, "4/C16"),
+    "C12": ("L", "AST-to-SMT symbolic interpretation of trie/binary.py + node helpers (pylift): every key bit symbolic, one merged path per trie shape, coverage closure; z3 unsat per path; native replay",
+            "Bounded symbolic model checking: 2-operation (quick) / 3-operation (thorough) histories of set / delete / delete_subtrie over 1- and 2-byte symbolic keys against the map model with the NodeOverrideError rule, unchanged state on refusal, blank root iff empty, order independence and delete-restores-root.", L_NOTE, "4/C12"),
+    "C13": ("L", "AST-to-SMT symbolic interpretation of trie/branches.py over tries built by the interpreted BinaryTrie (pylift): stored keys, query key, prefix and suffix symbolic; z3 unsat per path + coverage closure; native replay",
+            "Bounded symbolic model checking: get_branch refusal rule and validation, non-validation of wrong answers / truncated / other-key / foreign-trie branches, check_if_branch_exist iff a stored key has the prefix, get_trie_nodes == reachable set, witness sufficiency for every key below a prefix.", L_NOTE, "4/C13"),
 })
 NOT_YET = "check not built yet in this round (see DESIGN.md section 4 for the plan); not claimed"
 
